@@ -205,7 +205,7 @@ class Ref:
     """Environment-based evaluation; `kludge` reproduces the known trailing-newline deviation (finding C04/#22)."""
 
     def __init__(self, lib, kludge=False, depth_limit=40, trim_first=None, switch_default_wins=False,
-                 opts=None, leak=False, resplit=None, switch_link_eq=False):
+                 opts=None, leak=False, resplit=None, switch_link_eq=False, switch_skip_empty=False):
         # leak: variant describing a known deviation -- the calls inside the arguments of an unexpanded parser
         # function stay placeholders; when such an argument value is substituted into a template body they are
         # expanded there (late), otherwise they are printed as written
@@ -217,6 +217,9 @@ class Ref:
         # switch_link_eq: variant describing a known deviation -- inside a template body links have already been turned into
         # text when #switch looks for '=' in its cases, so an '=' inside a link splits the case
         self.switch_link_eq = switch_link_eq
+        # switch_skip_empty: variant describing a known deviation -- after a bare '#default' a case whose value is empty is not
+        # taken as the default; the next case with a non-empty value is
+        self.switch_skip_empty = switch_skip_empty
         self._top = None          # written name of the template whose body is being scanned at its top level
         self.deferred = []
         self.lib = {}
@@ -352,9 +355,10 @@ class Ref:
     def nl(self, t):
         return "\n" + t if t.startswith(("*", ";", ":", "#", "{|")) else t
 
-    def argtext(self, a, env, depth, in_body):
+    def argtext(self, a, env, depth, in_body, keep_top=False):
         saved = self._top
-        self._top = None
+        if not keep_top:
+            self._top = None
         try:
             v = self.ev(a, env, depth, in_body)
         finally:
@@ -385,7 +389,8 @@ class Ref:
             finally:
                 self._ea_stack[-1] = saved
         if not self.cur_ea and not self.selected(name):
-            return "{{" + "|".join(self.argtext(a, env, depth, in_body) for a in args) + "}}"
+            # (a call that is left alone pushes no frame: its arguments are still at the top level of the enclosing body)
+            return "{{" + "|".join(self.argtext(a, env, depth, in_body, keep_top=True) for a in args) + "}}"
         return self.call_template(name, args, env, depth, in_body)
 
     def call_pf(self, fn, rest, env, depth, in_body):
@@ -442,8 +447,9 @@ class Ref:
                     if not isinstance(it, int) and it[0] == "A" and all(isinstance(x, int) for x in it[1][0]):
                         k = canon_key(render(it[1][0]))
                         val = env.get(k)
-                        if val is None and len(it[1]) >= 2 and all(isinstance(x, int) for x in it[1][1]):
-                            val = render(it[1][1])          # an unbound parameter's plain default is substituted the same way
+                        if val is None and len(it[1]) >= 2:
+                            a2 += list(it[1][1])            # an unbound parameter's default is spliced in the same way
+                            continue
                         if isinstance(val, str) and "\0" not in val and "\1" not in val:
                             a2 += [ord(ch) for ch in (val[:-1] if self.kludge and val.endswith("\n") else val)]
                             continue
@@ -528,7 +534,12 @@ class Ref:
             k = self.argtext(sp[0], env, depth, in_body).strip()
             if k == val:
                 return self.argtext(sp[1], env, depth, in_body).strip()
-            if default_found or k.lower() == "#default":
+            v_empty = len(sp[1]) == 0 or (self.kludge and in_body and list(sp[1]) == [10])
+            if k.lower() == "#default":
+                default = sp[1]
+                if not (self.switch_skip_empty and v_empty):
+                    default_found = False
+            elif default_found and not (self.switch_skip_empty and v_empty):
                 default = sp[1]
                 default_found = False
         if last is not None and not (self.switch_default_wins and default is not None):
